@@ -170,6 +170,34 @@ pub fn l5_packets() -> Vec<(&'static str, Vec<u8>)> {
             v.push(("nest", encode(&m, Strategy::Plain)));
         }
     }
+    // the same nesting with ONE-byte labels (a suffix of n labels is 2n+1 bytes), the deepest name used twice
+    for depth in 1..=20usize {
+        let mut m = base_msg(&nm("a"), T_A, true);
+        let mut cur: Vec<Vec<u8>> = vec![b"a".to_vec()];
+        let mut deepest = nm("a");
+        for i in 1..=depth {
+            cur.insert(0, vec![b'b' + (i % 20) as u8]);
+            let refs: Vec<&[u8]> = cur.iter().map(|l| &l[..]).collect();
+            deepest = name_from_labels(&refs);
+            m.an.push(a_rec(&deepest, i as u32, [1, 1, 2, i as u8]));
+        }
+        m.an.push(name_rec(&deepest, T_NS, 99, &deepest));
+        m.ar.push(a_rec(&deepest, 98, [9, 9, 9, 9]));
+        v.push(("nest1", encode(&m, Strategy::Plain)));
+    }
+    // a name that lands exactly at offsets 250..262 and 506..518 of the output and is used again later (a
+    // pointer whose low byte is 00 stands for offsets 256 and 512)
+    for pad in 0..26usize {
+        for base in [220usize, 476] {
+            let mut m = base_msg(&nm("q.a"), T_A, true);
+            m.an.push(Rec { owner: nm("q.a"), rtype: 99, class: 1, ttl: 1, rdata: Rdata::Opaque(vec![0x55; base + pad]) });
+            m.an.push(a_rec(&nm("first.late.org"), 2, [1, 2, 3, 4]));
+            m.an.push(name_rec(&nm("x.q.a"), T_NS, 3, &nm("late.org")));
+            m.an.push(name_rec(&nm("y.q.a"), T_CNAME, 4, &nm("first.late.org")));
+            m.ns.push(soa_rec(&nm("late.org"), 5, &nm("first.late.org"), &nm("org")));
+            v.push(("at256", encode(&m, Strategy::Plain)));
+        }
+    }
     // many distinct suffixes, then re-use of early / late ones
     for count in [31usize, 32, 33, 40] {
         let mut m = base_msg(&nm("q.zone"), T_A, true);
